@@ -96,6 +96,35 @@ pub fn check_modules(files: &BTreeMap<String, String>, returned: &[String], tags
             }
             continue;
         }
+        // a declaration that did not parse has no reference list; one defect of this property
+        // is still visible in its text: the `types` namespace followed by something that is
+        // not a member name (`types.(A | null)[]`, `types.[A, B]`) refers to nothing
+        for e in p.errors() {
+            let Some(line) = p.src.lines().nth(e.line.saturating_sub(1)) else { continue };
+            for (ns, module) in &table.namespaces {
+                if module != "./types" {
+                    continue;
+                }
+                let pat = format!("{}.", ns);
+                let mut from = 0;
+                while let Some(i) = line[from..].find(&pat) {
+                    let at = from + i;
+                    let before_ok = line[..at].chars().next_back().map_or(true, |c| !(c.is_alphanumeric() || c == '_' || c == '$' || c == '.'));
+                    let after = line[at + pat.len()..].chars().next();
+                    let member = after.map_or(false, |c| c.is_alphabetic() || c == '_' || c == '$');
+                    if before_ok && !member {
+                        fails.push(mk(
+                            "unresolved_reference",
+                            format!("`{}` is followed by {:?}, not by a member name, in: {}", pat, after, crate::run::truncate(line.trim(), 200)),
+                            "every reference through the types namespace names something types.ts exports".into(),
+                            vec!["space=type".into(), "qualified=true".into(), "namespace_without_member".into()],
+                        ));
+                        break;
+                    }
+                    from = at + pat.len();
+                }
+            }
+        }
         for r in module_refs(&p.module.items) {
             stats.count("references_resolved", 1);
             let space = if r.type_space { "type" } else { "value" };
